@@ -15,6 +15,7 @@
 #include <primesieve/RiemannR.hpp>
 
 #include <stdint.h>
+#include <limits>
 #include <algorithm>
 #include <chrono>
 #include <cmath>
@@ -120,6 +121,11 @@ uint64_t PrimeSieve::nthPrime(int64_t n, uint64_t start)
 uint64_t PrimeSieve::negativeNthPrime(int64_t n, uint64_t start)
 {
   ASSERT(n < 0);
+
+  // -n would overflow for INT64_MIN (and abs(n) > max_n)
+  if (n == std::numeric_limits<int64_t>::min())
+    throw primesieve_error("nth_prime(n): abs(n) must be <= " + std::to_string(max_n));
+
   n = -n;
 
   if ((uint64_t) n >= start)
